@@ -27,6 +27,10 @@ pub struct Case {
     /// at its end / at its start (cenc must be 0)
     #[serde(default)]
     pub stream: u8,
+    /// FDTPublishMode::ObjectsBeingTransferred (the FDT instance of a transfer is sent between the selection of the
+    /// object and its first packet: a removal can fall into that gap)
+    #[serde(default)]
+    pub obt: bool,
 }
 
 #[derive(Clone, Debug)]
@@ -74,6 +78,7 @@ pub fn run_case(c: &Case, g: &mut G) -> Option<(String, String)> {
         }
         let mut sess = SessSpec::basic(OtiSpec::new(Scheme::NoCode, 1424, 64, 0, true));
         sess.interleave = c.interleave;
+        sess.full_fdt = !c.obt;
         let mut s = sess.sender()?;
         let rec = Arc::new(Rec(Mutex::new(Vec::new())));
         s.subscribe(rec.clone());
@@ -102,7 +107,9 @@ pub fn run_case(c: &Case, g: &mut G) -> Option<(String, String)> {
                 return Ok(None);
             }
         };
-        s.publish(t0()).map_err(|e| e.0.to_string())?;
+        if !c.obt {
+            s.publish(t0()).map_err(|e| e.0.to_string())?;
+        }
         let polls: Vec<u64> = if c.carousel { vec![0, 1000, 2000] } else { vec![0] };
         let mut nread = 0usize;
         let mut removed = false;
@@ -388,7 +395,7 @@ pub fn run(thorough: bool) -> i32 {
                                 if !thorough && count == 3 {
                                     continue;
                                 }
-                                bases.push(Case { oti: OtiSpec::new(scheme, e, b, parity, len % 2 == 0), len, cenc, interleave, count, carousel, remove_at: None, immediate_stop: None, stream: 0 });
+                                bases.push(Case { oti: OtiSpec::new(scheme, e, b, parity, len % 2 == 0), len, cenc, interleave, count, carousel, remove_at: None, immediate_stop: None, stream: 0, obt: false });
                             }
                         }
                     }
@@ -406,7 +413,7 @@ pub fn run(thorough: bool) -> i32 {
         (Scheme::NoCode, 2, 3, 0, 3000),
     ] {
         for interleave in [1u8, 3] {
-            bases.push(Case { oti: OtiSpec::new(scheme, e, b, parity, interleave == 1), len, cenc: 0, interleave, count: 1, carousel: false, remove_at: None, immediate_stop: None, stream: 0 });
+            bases.push(Case { oti: OtiSpec::new(scheme, e, b, parity, interleave == 1), len, cenc: 0, interleave, count: 1, carousel: false, remove_at: None, immediate_stop: None, stream: 0, obt: false });
         }
     }
     // stream sources handed over at any position, no MD5 pass: every transfer still carries the whole object
@@ -414,11 +421,14 @@ pub fn run(thorough: bool) -> i32 {
         for len in [0usize, 1, 9, 17] {
             for stream in 1..=4u8 {
                 for (count, carousel) in [(1u32, false), (2, false), (1, true)] {
-                    bases.push(Case { oti: OtiSpec::new(scheme, 4, 2, if scheme == Scheme::NoCode { 0 } else { 1 }, true), len, cenc: 0, interleave: 1 + (len % 2) as u8, count, carousel, remove_at: None, immediate_stop: None, stream });
+                    bases.push(Case { oti: OtiSpec::new(scheme, 4, 2, if scheme == Scheme::NoCode { 0 } else { 1 }, true), len, cenc: 0, interleave: 1 + (len % 2) as u8, count, carousel, remove_at: None, immediate_stop: None, stream, obt: false });
                 }
             }
         }
     }
+    // the same sessions under per-transfer FDT instances
+    let obt_bases: Vec<Case> = bases.iter().enumerate().filter(|(i, b)| b.stream == 0 && (thorough || i % 3 == 0)).map(|(_, b)| { let mut c = b.clone(); c.obt = true; c }).collect();
+    bases.extend(obt_bases);
     let nbase = bases.len();
     // one deviation: removal after every packet index, with and without immediate stop
     let mut cases = bases.clone();
@@ -437,7 +447,11 @@ pub fn run(thorough: bool) -> i32 {
                 let mut c = b.clone();
                 c.remove_at = Some(i);
                 c.immediate_stop = imm;
-                cases.push(c);
+                cases.push(c.clone());
+                if i <= 6 || thorough {
+                    c.obt = true;
+                    cases.push(c);
+                }
             }
         }
     }
